@@ -1,7 +1,17 @@
+pub mod deep;
 pub mod doc;
+pub mod engine;
 pub mod entry;
+pub mod evidence;
+pub mod explore;
+pub mod invariance;
+pub mod oracles;
 pub mod probe;
+pub mod props;
 pub mod rec;
+pub mod reference;
+pub mod scalar;
+pub mod space;
 
 /// What generated catalogue code imports.
 pub mod prelude {
@@ -10,4 +20,42 @@ pub mod prelude {
     pub use crate::probe::*;
     pub use crate::rec::{ConvErr, RecA, RecB, ValErr};
     pub use serde_cs::vec::CS;
+}
+
+use evidence::Tier;
+
+/// Entry point shared by the quick and thorough binaries.
+pub fn main_with(entries: Vec<entry::Entry>, cat: mc_desc::Catalogue) -> i32 {
+    let args: Vec<String> = std::env::args().collect();
+    if args.len() < 2 {
+        eprintln!("usage: {} <PROPERTY> [quick|thorough] | replay <file> | stats", args[0]);
+        return 2;
+    }
+    let tier = match args.get(2).map(|s| s.as_str()).or(std::env::var("VERIF_TIER").ok().as_deref()) {
+        Some("thorough") => Tier::Thorough,
+        _ => Tier::Quick,
+    };
+    let threads = std::env::var("VERIF_THREADS").ok().and_then(|s| s.parse().ok()).unwrap_or(16);
+    let e = engine::Engine { cat: &cat, entries: &entries, tier, threads };
+    match args[1].as_str() {
+        "stats" => {
+            println!("roots {} items {}", cat.roots.len(), cat.items.len());
+            0
+        }
+        "C01" => props::run_c01(&e),
+        "C02" => props::run_c02(&e),
+        "C03" => props::run_c03(&e),
+        "C04" => props::run_c04(&e),
+        "C06" => props::run_c06(&e),
+        "C07" => props::run_c07(&e),
+        "C08" => props::run_c08(&e),
+        "C09" => props::run_c09(&e),
+        "C10" => props::run_c10(&e),
+        "C11" => props::run_c11(&e),
+        "C12" => props::run_c12(&e),
+        other => {
+            eprintln!("unknown property {other}");
+            2
+        }
+    }
 }
